@@ -13,6 +13,7 @@ use crate::explore::{Chooser, DistinctSet, ExploreCfg, explore, fnv};
 use crate::gql::*;
 use crate::pipeline;
 use crate::refts::*;
+use crate::refts::ModelUse;
 use crate::render::ts_text;
 use crate::report::{Args as RunArgs, Reporter, Violation, stats_json};
 use crate::rts::{Decl, T, Te, World, parse_module, show_t};
@@ -27,6 +28,7 @@ use std::sync::atomic::{AtomicU64, Ordering};
 use std::time::Duration;
 
 pub struct Case {
+    pub model: Option<ModelUse>,
     pub files: Vec<TsDoc>,
     pub scalars: BTreeMap<String, [String; 4]>,
     pub cfg: Config,
@@ -174,7 +176,33 @@ pub fn gen_case(c: &mut Chooser) -> Case {
             tags.push("hostile-deprecation-reason".into());
         }
     }
-    Case { files, scalars, cfg, tags }
+    // the model plugin (resolver side only): @model on fields of one object type, or on a whole object type
+    let model = match c.choose("plugin.model", 4) {
+        0 => None,
+        k => {
+            let mut m = ModelUse::default();
+            let mut d = TsDef::new(TsKind::Directive, Some("model"));
+            d.locations = vec![nm("OBJECT"), nm("FIELD_DEFINITION")];
+            d.dir_args = Some(vec![InputValueDef { desc: None, p: P::default(), name: nm("type"), ty: Ty::named("String"), default: None, dirs: vec![] }]);
+            files[0].defs.push(d);
+            if k >= 2 {
+                add_field_dir(&mut files, "Post", "id", dir("model", vec![]));
+                add_field_dir(&mut files, "Post", "author", dir("model", vec![]));
+                m.fields.insert("Post".into(), vec!["id".into(), "author".into()]);
+            }
+            if k == 3 {
+                for f in files.iter_mut() {
+                    if let Some(d) = f.defs.iter_mut().find(|d| d.name_str() == "User" && d.kind == TsKind::Object && !d.ext) {
+                        d.dirs.push(dir("model", vec![("type", Value::Str(P::default(), "ModelUser".into()))]));
+                    }
+                }
+                m.object_types.insert("User".into(), "ModelUser".into());
+            }
+            tags.push(format!("model-plugin:{k}"));
+            Some(m)
+        }
+    };
+    Case { model, files, scalars, cfg, tags }
 }
 
 fn add_field(files: &mut [TsDoc], ty: &str, name: &str, t: Ty) {
@@ -230,7 +258,7 @@ fn check_case(rep: &Reporter, case: &Case, texts: &[String], c: &Chooser, cnt: &
         let parsed = pipeline::parse_schema_files(texts).map_err(|f| format!("{:?}", f.diags))?;
         let doc = pipeline::resolve_and_check_schema(parsed).map_err(|f| format!("rejected: {:?}", f.diags.iter().map(|d| d.kind.clone()).collect::<Vec<_>>()))?;
         let s = pipeline::schema_dts(&doc, &case.cfg).map_err(|e| format!("schema_dts: {e}"))?;
-        let r = pipeline::resolvers_dts(&doc, &case.cfg, "./schema.js").map_err(|e| format!("resolvers_dts: {e}"))?;
+        let r = pipeline::resolvers_dts_with(&doc, &case.cfg, "./schema.js", case.model.is_some()).map_err(|e| format!("resolvers_dts: {e}"))?;
         Ok::<_, String>((s.buffer, r.buffer))
     });
     let (schema_text, resolvers_text) = match generated {
@@ -269,7 +297,7 @@ fn check_case(rep: &Reporter, case: &Case, texts: &[String], c: &Chooser, cnt: &
     };
     // (ii) every type in every target
     for target in Target::ALL {
-        let rs = RefSchema { sch: &sch, scalars: case.scalars.clone(), optional_input: case.cfg.generate.r#type.allow_undefined_as_optional_input, omit_typename: false };
+        let rs = RefSchema { sch: &sch, scalars: case.scalars.clone(), optional_input: case.cfg.generate.r#type.allow_undefined_as_optional_input, omit_typename: false, model: None };
         let names: Vec<String> = crate::schema::BUILTIN_SCALARS.iter().map(|s| s.to_string()).chain(sch.order.iter().cloned()).collect();
         for name in names {
             if !rs.exists_in(&name, target) {
@@ -311,8 +339,8 @@ fn check_resolvers(rep: &Reporter, case: &Case, sch: &Sch, world: &World, text: 
         return;
     };
     let scope = world.modules["resolvers"];
-    let rs_out = RefSchema { sch, scalars: case.scalars.clone(), optional_input: case.cfg.generate.r#type.allow_undefined_as_optional_input, omit_typename: false };
-    let rs_in = RefSchema { sch, scalars: case.scalars.clone(), optional_input: case.cfg.generate.r#type.allow_undefined_as_optional_input, omit_typename: false };
+    let rs_out = RefSchema { sch, scalars: case.scalars.clone(), optional_input: case.cfg.generate.r#type.allow_undefined_as_optional_input, omit_typename: false, model: case.model.clone() };
+    let rs_in = RefSchema { sch, scalars: case.scalars.clone(), optional_input: case.cfg.generate.r#type.allow_undefined_as_optional_input, omit_typename: false, model: case.model.clone() };
     // expected keys: every object type and every abstract type
     let mut expected: Vec<String> = sch.order.iter().filter(|n| matches!(sch.kind(n), Some(TsKind::Object | TsKind::Interface | TsKind::Union))).cloned().collect();
     expected.sort();
@@ -330,7 +358,9 @@ fn check_resolvers(rep: &Reporter, case: &Case, sch: &Sch, world: &World, text: 
         };
         let def = &sch.types[&tp.key];
         if def.kind == TsKind::Object {
-            let want: Vec<&String> = def.fields.iter().map(|f| &f.name.s).collect();
+            // fields marked @model are served by the model object itself: no resolver is required for them
+            let excluded: Vec<String> = case.model.as_ref().filter(|m| !m.object_types.contains_key(&tp.key)).and_then(|m| m.fields.get(&tp.key).cloned()).unwrap_or_default();
+            let want: Vec<&String> = def.fields.iter().map(|f| &f.name.s).filter(|n| !excluded.contains(n)).collect();
             let have: Vec<&String> = fields.iter().map(|f| &f.key).collect();
             let (mut w2, mut h2) = (want.clone(), have.clone());
             w2.sort();
@@ -432,7 +462,7 @@ pub fn run(args: &RunArgs) -> i32 {
     let stats = explore(&ExploreCfg { max_dev: dev, threads: args.threads, budget: Duration::from_secs(budget) }, |c: &mut Chooser| {
         let case = gen_case(c);
         let texts: Vec<String> = case.files.iter().map(ts_text).collect();
-        let key = format!("{}|{:?}|{}|{}", texts.join("\u{1}"), case.scalars, case.cfg.generate.r#type.allow_undefined_as_optional_input, case.cfg.generate.emit_schema_runtime);
+        let key = format!("{}|{:?}|{}|{}|{}", texts.join("\u{1}"), case.scalars, case.cfg.generate.r#type.allow_undefined_as_optional_input, case.cfg.generate.emit_schema_runtime, case.model.is_some());
         if !distinct.insert(fnv(key.as_bytes())) {
             return;
         }
